@@ -12,6 +12,7 @@
 #include <algorithm>
 #include "engine.hpp"
 #include "sched.hpp"
+#include "trap.hpp"
 
 namespace jv {
 
@@ -20,11 +21,13 @@ thread_local Stream* tl_stream = nullptr;
 thread_local HashStub* tl_hash = nullptr;
 
 extern "C" void jv_rand_cb(void* buf, size_t n) {
+    OutOfLib out;      // simulator code may allocate; the environment trap only concerns the library
     sched_callback_yield();
     if (!tl_stream) abort();
     tl_stream->serve(buf, n);
 }
 extern "C" void jv_hash_cb(void* out, size_t outlen, const void* in, size_t inlen) {
+    OutOfLib guard;
     sched_callback_yield();
     if (!tl_hash) abort();
     tl_hash->fill(out, outlen, in, inlen);
